@@ -429,6 +429,7 @@ int main(int argc, char **argv)
     m.smax = (tier ? 10 : 3) * m.out_rate + 2;
     if (tier && m.has_absorb) m.amax = (m.in_rate >= 32 ? 6 : 9) * m.in_rate + 2;
     if (tier) chunkmul = 3;
+    if (tier >= 2) { chunkmul = 4; m.smax = 16 * m.out_rate + 2; if (m.has_absorb) m.amax = (m.in_rate >= 32 ? 9 : 16) * m.in_rate + 2; }
     M = &m;
     char kb[64]; snprintf(kb, sizeof kb, "chunking:%s", M->name);
     /* expectations from the library's own one-shot calls, cross-checked against the reference */
